@@ -12,7 +12,7 @@ theorem safe_doList {s : St} {j : Nat} (h : Safe s) (hj : j < s.nJob) (hpc : (s.
     Safe (doList s j) := by
   unfold doList
   apply safe_setJob h
-  · obtain ⟨h0, hn0, hn0b, hn1, hn2, h1, h2, h3, h4, h5, h6, h7, h8, h9, h10, hrec, hnf, hrd, h11, h12, h13, h14⟩ := h.jobs j hj
+  · obtain ⟨h0, hn0, hn0b, hn0c, hn1, hn2, h1, h2, h3, h4, h5, h6, h7, h8, h9, h10, hrec, hnf, hrd, h11, h12, h13, h14⟩ := h.jobs j hj
     have hd := h.file_bound.2.2.2
     have hs := @mem_sortNat
     generalize s.job j = b at *
@@ -25,7 +25,7 @@ theorem safe_doPend {s : St} {j : Nat} (h : Safe s) (hj : j < s.nJob) (hpc : (s.
     Safe (doPend s j) := by
   unfold doPend
   apply safe_setJob h
-  · obtain ⟨h0, hn0, hn0b, hn1, hn2, h1, h2, h3, h4, h5, h6, h7, h8, h9, h10, hrec, hnf, hrd, h11, h12, h13, h14⟩ := h.jobs j hj
+  · obtain ⟨h0, hn0, hn0b, hn0c, hn1, hn2, h1, h2, h3, h4, h5, h6, h7, h8, h9, h10, hrec, hnf, hrd, h11, h12, h13, h14⟩ := h.jobs j hj
     generalize s.job j = b at *
     obtain ⟨kind, pc, payload, snap, inputs, trivial, todoIn, out, edit, csnap, newVer, prev, prevZero, nfRead, dlist, live, todoDel⟩ := b
     simp only at hpc; subst hpc
@@ -36,7 +36,7 @@ theorem safe_doActive {s : St} {j : Nat} (h : Safe s) (hj : j < s.nJob) (hpc : (
     Safe (doActive s j) := by
   unfold doActive
   apply safe_setJob h
-  · obtain ⟨h0, hn0, hn0b, hn1, hn2, h1, h2, h3, h4, h5, h6, h7, h8, h9, h10, hrec, hnf, hrd, h11, h12, h13, h14⟩ := h.jobs j hj
+  · obtain ⟨h0, hn0, hn0b, hn0c, hn1, hn2, h1, h2, h3, h4, h5, h6, h7, h8, h9, h10, hrec, hnf, hrd, h11, h12, h13, h14⟩ := h.jobs j hj
     generalize s.job j = b at *
     obtain ⟨kind, pc, payload, snap, inputs, trivial, todoIn, out, edit, csnap, newVer, prev, prevZero, nfRead, dlist, live, todoDel⟩ := b
     simp only at hpc; subst hpc
@@ -50,7 +50,7 @@ theorem safe_doRollup {s : St} {j : Nat} (h : Safe s) (hj : j < s.nJob) (hpc : (
   unfold doRollup
   dsimp only
   apply safe_setJob h
-  · obtain ⟨h0, hn0, hn0b, hn1, hn2, h1, h2, h3, h4, h5, h6, h7, h8, h9, h10, hrec, hnf, hrd, h11, h12, h13, h14⟩ := h.jobs j hj
+  · obtain ⟨h0, hn0, hn0b, hn0c, hn1, hn2, h1, h2, h3, h4, h5, h6, h7, h8, h9, h10, hrec, hnf, hrd, h11, h12, h13, h14⟩ := h.jobs j hj
     generalize s.job j = b at *
     obtain ⟨kind, pc, payload, snap, inputs, trivial, todoIn, out, edit, csnap, newVer, prev, prevZero, nfRead, dlist, live, todoDel⟩ := b
     simp only at hpc; subst hpc
@@ -68,7 +68,7 @@ theorem safe_doEvict {s : St} {j : Nat} {f : Nat} {rest : List Nat} (h : Safe s)
   have hd : DeadR s f := hb0.deleting (by rcases hpc with hpc | hpc <;> rw [hpc] <;> rfl) f (by simp [htodo])
   have h1 : Safe (setPc s j .doEvicted) := by
     apply safe_setPc_plain h
-    obtain ⟨h0, hn0, hn0b, hn1, hn2, h1, h2, h3, h4, h5, h6, h7, h8, h9, h10, hrec, hnf, hrd, h11, h12, h13, h14⟩ := hb0
+    obtain ⟨h0, hn0, hn0b, hn0c, hn1, hn2, h1, h2, h3, h4, h5, h6, h7, h8, h9, h10, hrec, hnf, hrd, h11, h12, h13, h14⟩ := hb0
     generalize s.job j = b at *
     obtain ⟨kind, pc, payload, snap, inputs, trivial, todoIn, out, edit, csnap, newVer, prev, prevZero, nfRead, dlist, live, todoDel⟩ := b
     simp only at hpc
@@ -83,7 +83,7 @@ theorem safe_doRemove {s : St} {j : Nat} {f : Nat} {rest : List Nat} (h : Safe s
   have hd : DeadR s f := hb0.deleting (by rw [hpc]; rfl) f (by simp [htodo])
   have h1 : Safe (s.setJob j { s.job j with todoDel := rest, pc := .doRemoved }) := by
     apply safe_setJob h
-    · obtain ⟨h0, hn0, hn0b, hn1, hn2, h1, h2, h3, h4, h5, h6, h7, h8, h9, h10, hrec, hnf, hrd, h11, h12, h13, h14⟩ := hb0
+    · obtain ⟨h0, hn0, hn0b, hn0c, hn1, hn2, h1, h2, h3, h4, h5, h6, h7, h8, h9, h10, hrec, hnf, hrd, h11, h12, h13, h14⟩ := hb0
       generalize s.job j = b at *
       obtain ⟨kind, pc, payload, snap, inputs, trivial, todoIn, out, edit, csnap, newVer, prev, prevZero, nfRead, dlist, live, todoDel⟩ := b
       simp only at hpc htodo; subst hpc htodo
@@ -96,7 +96,7 @@ theorem safe_jFinish {s : St} {j : Nat} (h : Safe s) (hj : j < s.nJob)
   unfold jFinish
   apply safe_setCompacting
   apply safe_setPc_plain h
-  obtain ⟨h0, hn0, hn0b, hn1, hn2, h1, h2, h3, h4, h5, h6, h7, h8, h9, h10, hrec, hnf, hrd, h11, h12, h13, h14⟩ := h.jobs j hj
+  obtain ⟨h0, hn0, hn0b, hn0c, hn1, hn2, h1, h2, h3, h4, h5, h6, h7, h8, h9, h10, hrec, hnf, hrd, h11, h12, h13, h14⟩ := h.jobs j hj
   generalize s.job j = b at *
   obtain ⟨kind, pc, payload, snap, inputs, trivial, todoIn, out, edit, csnap, newVer, prev, prevZero, nfRead, dlist, live, todoDel⟩ := b
   simp only at hpc
@@ -105,18 +105,36 @@ theorem safe_jFinish {s : St} {j : Nat} (h : Safe s) (hj : j < s.nJob)
 theorem safe_startDelObs {s : St} {j : Nat} (h : Safe s) (hj : j < s.nJob) (hpc : (s.job j).pc = .start)
     (hk : (s.job j).kind = .delObs) : Safe (setPc s j .doStart) := by
   apply safe_setPc_plain h
-  obtain ⟨h0, hn0, hn0b, hn1, hn2, h1, h2, h3, h4, h5, h6, h7, h8, h9, h10, hrec, hnf, hrd, h11, h12, h13, h14⟩ := h.jobs j hj
+  obtain ⟨h0, hn0, hn0b, hn0c, hn1, hn2, h1, h2, h3, h4, h5, h6, h7, h8, h9, h10, hrec, hnf, hrd, h11, h12, h13, h14⟩ := h.jobs j hj
   generalize s.job j = b at *
   obtain ⟨kind, pc, payload, snap, inputs, trivial, todoIn, out, edit, csnap, newVer, prev, prevZero, nfRead, dlist, live, todoDel⟩ := b
   simp only at hpc hk; subst hpc hk
   jobok_at
 
 
+/-- the other families' moves on the shared counters (`Act.env`): both counters only grow, and no
+job of this family holds the version-set mutex (so none is between reading and storing the counter) -/
+theorem safe_envBump {s : St} (df dv : Nat) (h : Safe s) (hl : s.lock = none) : Safe (envBump s df dv) := by
+  obtain ⟨a1, a2, a3, a4, b1, b2, b3, bj, bd, c1, c2, c3, c4, d1⟩ := h
+  constructor
+  case jobs =>
+    intro k hk
+    obtain ⟨h0, hn0, hn0b, hn0c, hn1, hn2, h1, h2, h3, h4, h5, h6, h7, h8, h9, h10, hrec, hnf, hrd, h11, h12, h13, h14⟩ := bj k hk
+    have hnl : (s.job k).pc ≠ .cLocked := by
+      intro hpc
+      have := h4 (by rw [hpc]; rfl)
+      rw [hl] at this; cases this
+    constructor <;> simp only [envBump, PastPending, Dead, DeadR] at * <;> grind
+  case ver_bound => simp only [envBump] at *; grind
+  case file_bound => simp only [envBump] at *; grind
+  case held_dead => simp only [envBump, Dead] at *; grind
+  all_goals (simp only [envBump, PastPending, Dead, DeadR] at *; assumption)
+
 theorem safe_jstep {cfg : Cfg} {s s' : St} {j : Nat} (hr : cfg.recheck = true) (hcl : cfg.cloneLocked = true)
-    (hal : cfg.allocLocked = true) (hpf : cfg.pendFirst = true) (h : Safe s)
+    (hal : cfg.allocLocked = true) (hpf : cfg.pendFirst = true) (hlf : cfg.listFirst = true) (h : Safe s)
     (hs : jstep cfg s j = some s') : Safe s' := by
   unfold jstep at hs
-  simp only [hpf, ↓reduceIte] at hs
+  simp only [hpf, hlf, ↓reduceIte] at hs
   split at hs
   case isFalse => cases hs
   case isTrue hj =>
@@ -197,6 +215,7 @@ theorem safe_jstep {cfg : Cfg} {s s' : St} {j : Nat} (hr : cfg.recheck = true) (
     · cases hs; exact safe_doRemove h hj hpc (by assumption)
   case h_27 hpc => cases hs
   case h_28 hpc => exact absurd hpc (h.jobs j hj).notCreatedU
+  case h_29 hpc => exact absurd hpc (h.jobs j hj).notLiveL
 
 
 theorem readerSnap_spec {s : St} {i : Nat} (h : readerSnap s i = true) :
@@ -214,7 +233,7 @@ theorem reader_not_own {s : St} {i : Nat} (h : Safe s) (ho : (s.snap i).owner = 
 /-- every atomic step of the model preserves `Safe` when removeVersion re-checks the refcount -/
 theorem safe_step {cfg : Cfg} {s s' : St} {a : Act} (hr : cfg.recheck = true) (hcl : cfg.cloneLocked = true)
     (hal : cfg.allocLocked = true) (hfe : cfg.findErrReleases = false) (hpf : cfg.pendFirst = true)
-    (hcc : cfg.closeCAS = true) (hga : cfg.getReaderAtomic = true) (h : Safe s)
+    (hcc : cfg.closeCAS = true) (hga : cfg.getReaderAtomic = true) (hlf : cfg.listFirst = true) (h : Safe s)
     (hs : step cfg s a = some s') : Safe s' := by
   cases a with
   | acquire => simp only [step] at hs; cases hs; exact safe_acquire none h
@@ -266,7 +285,7 @@ theorem safe_step {cfg : Cfg} {s s' : St} {a : Act} (hr : cfg.recheck = true) (h
       exact safe_rel h (readerSnap_spec hrs).1 (by rw [ho]; simp)
     next => cases hs
   | spawn k p => simp only [step] at hs; cases hs; exact safe_spawn k p h
-  | jstep j => exact safe_jstep hr hcl hal hpf h hs
+  | jstep j => exact safe_jstep hr hcl hal hpf hlf h hs
   | cleanup fs =>
     simp only [step] at hs
     split at hs
@@ -281,12 +300,17 @@ theorem safe_step {cfg : Cfg} {s s' : St} {a : Act} (hr : cfg.recheck = true) (h
   | getReaderNoRetain i f =>
     simp only [step, hga, Bool.not_true, Bool.false_and, Bool.false_eq_true, if_false] at hs
     cases hs
+  | env df dv =>
+    simp only [step] at hs
+    split at hs
+    next hl => cases hs; exact safe_envBump df dv h hl
+    next => cases hs
 
 theorem safe_reachable {cfg : Cfg} {v0 f0 : Nat} {s : St} (hr : cfg.recheck = true) (hcl : cfg.cloneLocked = true)
     (hal : cfg.allocLocked = true) (hfe : cfg.findErrReleases = false) (hpf : cfg.pendFirst = true)
-    (hcc : cfg.closeCAS = true) (hga : cfg.getReaderAtomic = true) (h : Reachable cfg v0 f0 s) : Safe s := by
+    (hcc : cfg.closeCAS = true) (hga : cfg.getReaderAtomic = true) (hlf : cfg.listFirst = true) (h : Reachable cfg v0 f0 s) : Safe s := by
   induction h with
   | init => exact safe_init v0 f0
-  | step a _ hs ih => exact safe_step hr hcl hal hfe hpf hcc hga ih hs
+  | step a _ hs ih => exact safe_step hr hcl hal hfe hpf hcc hga hlf ih hs
 
 end LinVerif.Lemmas.C02
